@@ -23,7 +23,7 @@ REQUIRED_MONITORS = ["closed-form:outputs-compared", "closed-form:input-grads-co
                      "apply:bit-compared", "gradcheck:run"]
 REQUIRED_REACH = {"functional.py": ["residual_split", "residual_add", "residual_apply"]}
 MIN_NONTRIVIAL = {"quick": 800, "thorough": 50000}
-BRANCHES = ["linear", "tanh", "gelu_linear", "u_linear", "u_gelu", "sin_scale", "u_silu_linear", "constant", "detached", "inplace_relu_linear", "inplace_mul"]
+BRANCHES = ["linear", "tanh", "gelu_linear", "u_linear", "u_gelu", "sin_scale", "u_silu_linear", "constant", "detached", "inplace_relu_linear", "inplace_mul", "lowp_tanh"]
 
 
 def gen_cases(tier: str, seed: int) -> List[Dict[str, Any]]:
@@ -46,7 +46,12 @@ def gen_cases(tier: str, seed: int) -> List[Dict[str, Any]]:
             shape = [1] * rng.randint(0, 3)
             for l in layers:
                 l["branch"] = rng.choice(["tanh", "sin_scale", "u_gelu"])
-        cases.append({"layers": layers, "nested": depth >= 2 and rng.random() < 0.4, "shape": shape,
+        nested_ = depth >= 2 and rng.random() < 0.4
+        if nested_:
+            for l in layers:  # (a float32 branch output would be fed to the inner layers' float64 weights: sequential stacks only)
+                if l["branch"] == "lowp_tanh":
+                    l["branch"] = "tanh"
+        cases.append({"layers": layers, "nested": nested_, "shape": shape,
                       "gradcheck": rng.random() < 0.15, "seed": derive_seed(seed, PROPERTY, "s", i) % (2**31)})
     return cases
 
@@ -74,6 +79,10 @@ def make_branch(kind: str, d: int, gen, torch, U):
         return lambda t: t @ W.T
     if kind == "tanh":
         return torch.tanh
+    if kind == "lowp_tanh":
+        # a branch computed in LOWER precision than the residual stream (mixed-precision layout): the sum is formed at the
+        # stream's precision by ordinary type promotion
+        return lambda t: torch.tanh(t.float())
     if kind == "gelu_linear":
         return lambda t: F.gelu(t @ W.T)
     if kind == "u_linear":
@@ -209,13 +218,17 @@ def run_case(case: Dict[str, Any], ctx) -> None:
     yc.backward(up)
     scale = max(yc.detach().abs().max().item(), 1e-300)
     ctx.count("closed-form:outputs-compared")
+    if ya.dtype != yc.dtype or yb.dtype != yc.dtype:
+        ctx.violation(key + ":result-dtype-differs-from-closed-form", f"split/f/add {ya.dtype}, residual_apply {yb.dtype}, (x + tau*f(x))/sqrt(1+tau^2) {yc.dtype}", case=case)
+        return
+    mixed = any(l["branch"] == "lowp_tanh" for l in layers)  # a float32 branch term is rounded to float32 wherever it is scaled
     err = (ya.detach() - yc.detach()).abs().max().item() / scale
-    if err > 1e-12 * len(layers) * 8:
+    if err > (1e-12 if not mixed else 4e-7) * len(layers) * 8:
         ctx.violation(key + ":output-differs-from-closed-form", f"rel err {err:.2e}", case=case)
     gscale = max(xc.grad.abs().max().item(), 1e-300)
     gerr = (xa.grad - xc.grad).abs().max().item() / gscale
     ctx.count("closed-form:input-grads-compared")
-    if gerr > 1e-11 * len(layers) * 8:
+    if gerr > (1e-11 if not mixed else 4e-7) * len(layers) * 8:
         ctx.violation(key + ":input-gradient-is-not-derivative-of-closed-form", f"rel err {gerr:.2e}", case=case)
     # ---- the same layers evaluated WITHOUT autograd recording (no_grad / inference_mode): same forward values ------------
     if case["seed"] % 3 != 2:
@@ -230,7 +243,7 @@ def run_case(case: Dict[str, Any], ctx) -> None:
         ctx.count("mode:" + mode.__name__ + "-compared")
         for nm, yn in (("split-f-add", ya_n), ("residual_apply", yb_n)):
             errn = (yn - yc.detach()).abs().max().item() / scale
-            if errn > 1e-12 * len(layers) * 8:
+            if errn > (1e-12 if not mixed else 4e-7) * len(layers) * 8:
                 ctx.violation(key + f":{nm}-differs-from-closed-form-under-{mode.__name__}", f"rel err {errn:.2e}", case=case)
                 break
     # residual_apply identical to the explicit sequence
@@ -261,6 +274,9 @@ def run_case(case: Dict[str, Any], ctx) -> None:
     for i, g in outs.items():
         if i in sums:
             ctx.count("hook:branch-output-grads")
+            if g.dtype != sums[i].dtype and float((g.double() - sums[i].double()).abs().max()) <= 2.0**-22 * max(float(sums[i].abs().max()), 1e-300):
+                ctx.count("hook:branch-output-grad-equal-up-to-its-lower-dtype")
+                continue
             if not bits_equal(g, sums[i]):
                 rel = (g - sums[i]).abs().max().item() / max(sums[i].abs().max().item(), 1e-300)
                 ctx.violation(key + ":gradient-attenuated-inside-branch", f"layer {i}: branch-output gradient differs from upstream gradient (rel {rel:.2e}, tau={taus[i]})",
